@@ -436,7 +436,12 @@ func (client *client) readLoop() {
 				}
 			}
 		}
-		client.in <- packet
+		select {
+		case client.in <- packet:
+		case <-client.close:
+			// the packet handler is gone (it, or another loop, ended with an error): nobody will take the packet
+			return
+		}
 		select {
 		case <-client.connected:
 		case <-client.authContinue:
